@@ -85,6 +85,11 @@ pub fn compare(ctx: &Ctx, out: &mut Out, text: &str, gtext: &str, origin: &str) 
         out.count("skipped_crashed_earlier");
         return;
     }
+    // graph family: a work budget (the SLG solver does not return on some of them, F32), and the
+    // shape of the cycles the goal reaches refines the classifiers
+    let graph = origin == "graph";
+    let shape = if graph { graph_shape(text, gtext) } else { "" };
+    let budget: Option<u64> = if graph { Some(2500) } else { None };
     let unknowns = peeled.canonical.binders.len(I) > 0;
     let co = text.contains("#[coinductive]") || text.contains("#[auto]");
     let mut answers = vec![];
@@ -95,7 +100,7 @@ pub fn compare(ctx: &Ctx, out: &mut Out, text: &str, gtext: &str, origin: &str) 
             return;
         }
         let _ = (unknowns, co); // F12 (C09) is fixed: no need to skip coinductive goals with unknowns any more
-        let r = solve_fresh(text, &peeled, choice);
+        let r = solve_fresh_budget(text, &peeled, choice, budget.map(|b| if name == "slg" { b } else { 80 * b }));
         out.count(&format!("{}_{}", name, answer_kind(&r)));
         match r {
             Ok(sol) => answers.push(sol),
@@ -106,6 +111,11 @@ pub fn compare(ctx: &Ctx, out: &mut Out, text: &str, gtext: &str, origin: &str) 
                 } else if name == "slg" && site.contains("negative cycle") {
                     // documented behaviour of SLG on non-stratified negation (tests expect this panic)
                     out.count("slg_negative_cycle_panic");
+                } else if site.contains("Negative subgoal had delayed_subgoals") {
+                    out.fail(&format!("{} solver panicked: {}", name, site), &label, "slg_negative_subgoal_delayed_panic");
+                } else if site == BUDGET_PANIC {
+                    out.count(&format!("{}_budget_exceeded_{}", name, shape));
+                    out.fail(&format!("{} solver exceeded its work budget", name), &label, &format!("{}_work_budget_exceeded@{}", name, shape));
                 } else {
                     out.fail(&format!("{} solver panicked: {}", name, site), &label, &format!("{}_panic", name));
                 }
@@ -113,13 +123,32 @@ pub fn compare(ctx: &Ctx, out: &mut Out, text: &str, gtext: &str, origin: &str) 
             }
         }
     }
-    let req = tagged("compatible", vec![answer_generic(&answers[0]), answer_generic(&answers[1])]);
+    let req = if graph {
+        out.count(&format!("graph_shape_{}", shape));
+        tagged("compatible", vec![answer_generic(&answers[0]), answer_generic(&answers[1]), atom(&format!("graph-{}", shape))])
+    } else {
+        tagged("compatible", vec![answer_generic(&answers[0]), answer_generic(&answers[1])])
+    };
     let nontrivial = answers[0].is_some() || answers[1].is_some();
     out.case(req.to_string(), "ACCEPT".to_string(), nontrivial, &label);
 }
 
 pub fn run(ctx: &Ctx, out: &mut Out) {
     let mut idx = 0usize;
+    // 0. corpus lines `program | lines ;; goal ; goal` (minimised past failures, replayed first)
+    for l in ctx.corpus_lines() {
+        if let Some((p, g)) = l.split_once(";;") {
+            idx += 1;
+            if !ctx.mine(idx) {
+                continue;
+            }
+            let text = p.trim().replace(" | ", "\n");
+            let origin = if text.contains("impl G for N") { "graph" } else { "corpus" };
+            for gtext in g.split(';') {
+                compare(ctx, out, &text, gtext.trim(), origin);
+            }
+        }
+    }
     // 1. the repository's own programs and goals
     for case in suite::load("/repo/tests/test") {
         for g in &case.goals {
@@ -129,6 +158,22 @@ pub fn run(ctx: &Ctx, out: &mut Out) {
             }
             out.count("suite_goals");
             compare(ctx, out, &case.program, g, &format!("suite:{}", case.file));
+        }
+    }
+    // 2a. dense dependency graphs over ground atoms (inductive and coinductive), single goals and
+    //     goals re-reading a sibling after a cycle head (`Na: G, not { Nb: G }`)
+    let ngraph = ctx.budget(150, 6000);
+    for i in 0..ngraph {
+        idx += 1;
+        if !ctx.mine(idx) {
+            continue;
+        }
+        let mut rng = ctx.rng(3, i as u64);
+        let co = rng.chance(1, 2);
+        let (text, n) = graph_program(&mut rng, co);
+        out.count("graph_programs");
+        for _ in 0..6 {
+            compare(ctx, out, &text, &graph_goal(&mut rng, n), "graph");
         }
     }
     // 2. generated programs (with and without coinductive traits; ground and existential goals)
